@@ -470,7 +470,11 @@ def d11_signature(isa, form, forms, own_names):
     mn, ops = form[0], form[1]
     if (mn.upper(), len(ops)) in own_names:
         return True
-    n = sum(1 for f in forms.values() if f[0].upper() == mn.upper() and len(f[1]) == len(ops))
+    # within one import the pinned code only collides when the swallowed form is spelled in upper case: new forms are
+    # filed under their raw mnemonic but looked up under mnemonic.upper()
+    if mn != mn.upper():
+        return False
+    n = sum(1 for f in forms.values() if f[0].upper() == mn and len(f[1]) == len(ops))
     return n >= 2
 
 
